@@ -61,7 +61,27 @@ def run_one(prop, patch):
         shutil.rmtree(work, ignore_errors=True)
 
 
+def _benign():
+    d = os.path.join(VERIF, "benign")
+    out = []
+    if os.path.isdir(d):
+        for name in sorted(os.listdir(d)):
+            pp = os.path.join(d, name, "patch.diff")
+            if os.path.exists(pp):
+                out.append(("benign/%s" % name, pp))
+    return out
+
+
 def run_for(run, prop):
+    # behaviour-preserving refactorings: the check must stay silent on every one of them
+    bres = []
+    for (name, patch) in _benign():
+        status, keys = run_one(prop, patch)
+        silent = status in ("MISSED", "skipped")     # rc 0 = no violation reported
+        run.selftest("benign/" + name.split("/", 1)[1] + "/silent", silent, True)
+        bres.append({"refactoring": name, "status": "silent" if silent else "FALSE-ALARM", "reported": keys[:3]})
+    if bres:
+        run.notes.append("benign refactorings: " + json.dumps(bres))
     ms = _mutants_for(prop)
     if not ms:
         return
